@@ -5,12 +5,15 @@ import (
 	"encoding/json"
 	"flag"
 	"fmt"
+	"io"
+	"log"
 	"os"
 	"runtime"
 	"runtime/debug"
 	"sort"
 	"strings"
 	"sync/atomic"
+	"syscall"
 	"time"
 
 	"verif/harness/props"
@@ -80,6 +83,7 @@ func main() {
 	flag.Parse()
 	runtime.GOMAXPROCS(1)
 	debug.SetGCPercent(-1)
+	log.SetOutput(io.Discard) // fox's recorder reports superfluous WriteHeader calls through the std logger
 	p := props.Get(*propID)
 	if p == nil {
 		fmt.Fprintln(os.Stderr, "unknown property", *propID)
@@ -90,6 +94,11 @@ func main() {
 			"quick_hb": p.QuickHB, "thorough_hb": p.ThoroughHB, "real": p.Real, "stub": p.Stub, "assumptions": p.Assumptions,
 			"tolerances": p.Tolerances, "domain": p.Domain})
 		return
+	}
+	// fox's default log handler (DefaultOptions) writes to the process's stdout: silence file descriptor 1. Everything the
+	// worker reports goes to its report file or to stderr.
+	if devnull, err := os.OpenFile(os.DevNull, os.O_WRONLY, 0); err == nil {
+		_ = syscall.Dup2(int(devnull.Fd()), 1)
 	}
 	runFn := p.Run
 	if sim.RaceEnabled && p.HBRun != nil {
@@ -184,7 +193,7 @@ func main() {
 			rep.Trouble = fmt.Sprintf("run %d: %s", i, res.Trouble)
 			break
 		}
-		if sim.RaceEnabled && res.Class == "" {
+		if sim.RaceEnabled {
 			if report := newRaceReport(); report != "" {
 				// HB mode: the race detector printed a report during this run
 				inFox, detail := judgeRace(report)
@@ -263,7 +272,7 @@ func main() {
 	if *out != "" {
 		writeJSON(*out, rep)
 	} else {
-		json.NewEncoder(os.Stdout).Encode(rep)
+		json.NewEncoder(os.Stderr).Encode(rep)
 	}
 	if rep.Trouble != "" {
 		os.Exit(2)
@@ -372,34 +381,34 @@ func doReplay(p *props.Prop, runFn func(sim.Source, props.Opts) *props.Result, o
 		res = runFn(rp, opts)
 	}
 	if rp.Err != nil {
-		fmt.Printf("REPLAY-MISMATCH %v\n", rp.Err)
+		fmt.Fprintf(os.Stderr, "REPLAY-MISMATCH %v\n", rp.Err)
 		return 2
 	}
 	if res.Trouble != "" {
-		fmt.Printf("REPLAY-TROUBLE %s\n", res.Trouble)
+		fmt.Fprintf(os.Stderr, "REPLAY-TROUBLE %s\n", res.Trouble)
 		return 2
 	}
 	if sim.RaceEnabled && res.Class == "" {
 		if report := newRaceReport(); report != "" {
 			if inFox, detail := judgeRace(report); inFox {
-				fmt.Printf("REPLAY-VIOLATION property=%s class=%s/data-race\n%s\n%s\n", p.ID, p.ID, detail, report)
+				fmt.Fprintf(os.Stderr, "REPLAY-VIOLATION property=%s class=%s/data-race\n%s\n%s\n", p.ID, p.ID, detail, report)
 				if rf.Class == p.ID+"/data-race" {
 					return 1
 				}
 				return 3
 			}
-			fmt.Printf("REPLAY-TROUBLE race report without fox frames on both sides\n%s\n", report)
+			fmt.Fprintf(os.Stderr, "REPLAY-TROUBLE race report without fox frames on both sides\n%s\n", report)
 			return 2
 		}
 	}
 	if res.Class == "" {
-		fmt.Printf("REPLAY-CLEAN property=%s (the recorded violation %s did not occur)\n", p.ID, rf.Class)
+		fmt.Fprintf(os.Stderr, "REPLAY-CLEAN property=%s (the recorded violation %s did not occur)\n", p.ID, rf.Class)
 		return 0
 	}
 	same := res.Class == rf.Class && (res.Hash == rf.Hash || rf.PRNG)
-	fmt.Printf("REPLAY-VIOLATION property=%s class=%s same_class=%v same_event_log=%v\n%s\n", p.ID, res.Class, res.Class == rf.Class, res.Hash == rf.Hash, res.Detail)
+	fmt.Fprintf(os.Stderr, "REPLAY-VIOLATION property=%s class=%s same_class=%v same_event_log=%v\n%s\n", p.ID, res.Class, res.Class == rf.Class, res.Hash == rf.Hash, res.Detail)
 	if res.Stack != "" {
-		fmt.Println(res.Stack)
+		fmt.Fprintln(os.Stderr, res.Stack)
 	}
 	if !same {
 		return 3
